@@ -12,8 +12,8 @@ flatten / filter_map / take ...), every line's io::Result is tested and its Err 
 and every line that parses is pushed (the only skips are the blank-line and the JSON-error edges).
 Noted, not decided: an unparsable WAL line is skipped by from_wal_file (the archive then lacks it); a decode error in recover_all skips that archive; losslessness of the MessagePack re-encoding; torn last lines.
 """
-FLOOR = 6
-REQUIRED = ["C19.a", "C19.b", "C19.c", "C19.d", "C19.e", "C19.f"]
+FLOOR = 7
+REQUIRED = ["C19.a", "C19.b", "C19.c", "C19.d", "C19.e", "C19.f", "C19.g"]
 
 
 def str_const_args(body):
@@ -318,6 +318,35 @@ def run(ctx):
             raise AnchorMissing("WalCleaner constructors with an archiver field (found %d)" % n)
         return bad
     ctx.run("C19.f", "K11 SIB", "WalCleaner constructors / cleanup_up_to", "the archive pass reads the directory the deletion pass lists", f_)
+
+    def g_(inst):
+        """`if archiving any eligible file fails, no log file is deleted`: the cleaner counts the Err entries of the result list and then
+        deletes every file with id < keep_from. A file that is eligible for deletion but for which the archiver pushes NO result
+        (skipped, deferred) is deleted without an archive and without a failure being counted. In archive_logs_up_to every path from
+        `id < keep_from_log_id` to the next file passes results.push(archive_log(id))."""
+        bad = []
+        a = F.fn("WalArchiver::archive_logs_up_to")
+        al = one(a, r"WalArchiver::archive_log$")
+        pushes = [c for c in a.calls if not c.cleanup and c.nname.endswith("Vec::push") and any(l[0] == "call" and l[2] == al.bb for l in a.origins(c.args[1]))]
+        if not pushes:
+            bad.append(("archive-result-not-recorded", "the result of archive_log is not pushed into the result list the cleaner counts failures in", sp(a, al.bb)))
+            return bad
+        g = id_guard(a, al.bb, "keep_from_log_id")
+        if not g:
+            raise AnchorMissing("the guard id < keep_from_log_id in front of archive_log")
+        hdrs = [h for h in for_headers(a) if a.can_reach(h.bb, al.bb) and a.can_reach(al.bb, h.bb)]
+        if not hdrs:
+            raise AnchorMissing("the loop over the WAL directory in archive_logs_up_to")
+        inst.sites = [sp(a, al.bb)] + [sp(a, c.bb) for c in pushes]
+        for (sw_bb, op, truth) in g:
+            si = a.switch_info(sw_bb)
+            tgt = si["true"] if truth else si["false"]
+            seen = set(a.reach(0, src_edges=[(sw_bb, tgt)], cut_blocks=[c.bb for c in pushes]))
+            if any(h.bb in seen for h in hdrs) or any(x in seen for x in a.exits()):
+                bad.append(("eligible-log-without-result", "archive_logs_up_to can go on to the next file (or return) after `id < keep_from_log_id` held without pushing a result for that log: the cleaner counts no failure and deletes the log unarchived", sp(a, sw_bb)))
+                break
+        return bad
+    ctx.run("C19.g", "K9 LOOP", "WalArchiver::archive_logs_up_to", "every log that is eligible for deletion gets an archive result", g_)
 
     ctx.note("WalArchive::from_wal_file logs and skips an unparsable WAL line: the archive then lacks it while the file is deleted (fault clause, not armed)")
     ctx.note("WalArchiveRecovery::recover_all logs and skips an archive that fails to decode (fault clause, not armed)")
